@@ -4,7 +4,10 @@ import gen
 
 # attribute names, including ones that are substrings / superstrings of the special names `children`, `name`, `parent`
 KEYS = ["a", "b", "id", "x y", "é", "zz", "_priv", "c", "n", "e", "child", "ren", "childre", "children_", "Children",
-        "nam", "names", "parent_", "k\ufeff", "name"]
+        "nam", "names", "parent_", "k\ufeff", "name",
+        # names of read-only navigation properties of the node classes: stored in the instance dictionary by the
+        # constructors (`__dict__.update`), they are data like any other key
+        "size", "depth", "height", "is_leaf", "path", "root", "leaves", "siblings"]
 
 
 def rand_value(rng, depth=0):
